@@ -89,7 +89,7 @@ Theorem variadic_exports : forall c st t l args st',
   s_slots st' = s_slots st /\ s_mem st' = s_mem st /\ s_procs st' = s_procs st.
 Proof.
   intros c st t l args st' EN E. unfold emit_variadic in E. rewrite EN in E. unfold emit_with_args in E.
-  destruct (existsb arg_crashes args); [discriminate|]. rewrite EN in E. inversion E; subst; clear E.
+  rewrite EN in E. inversion E; subst; clear E.
   cbn [with_out emit_children s_exp s_slots s_mem s_procs]. repeat split.
   f_equal. unfold create_multi, enum_from. fold (children (seq 0 (length (s_procs st))) (rec_created (active_ident c st t))).
   rewrite !map_children_children. rewrite fan_out_seq by lia. rewrite Nat.sub_0_r. unfold exported. apply map_ext. intro p. reflexivity.
@@ -135,15 +135,14 @@ Theorem null_ignored : forall c st t l st',
   (forall r, nth_error (s_slots st) r = Some RNull -> lstep c st (LEmit t l r) = Ok st' ->
              s_exp st' = s_exp st /\ s_slots st' = s_slots st) /\
   (forall r args, nth_error (s_slots st) r = Some RNull ->
-             lstep c st (LEmitRV t l r args) <> Crash /\
-             (lstep c st (LEmitRV t l r args) = Ok st' -> s_exp st' = s_exp st /\ nth_error (s_slots st') r = Some RNull)).
+             lstep c st (LEmitRV t l r args) = Ok st' -> s_exp st' = s_exp st /\ nth_error (s_slots st') r = Some RNull).
 Proof.
   intros c st t l st'. split; [|split].
   - intro E. cbn [lstep] in E. destruct (_ && _); [|discriminate]. inversion E; subst. split; reflexivity.
   - intros r N E. cbn [lstep] in E. destruct (negb _); [discriminate|]. rewrite N in E.
     destruct (negb (logger_enabled c l)); inversion E; subst; split; reflexivity.
-  - intros r args N. cbn [lstep]. destruct (negb _); [split; [discriminate | intro X; discriminate X]|].
-    rewrite N. cbn [emit_with_args]. split; [discriminate|]. intro E. inversion E; subst; clear E.
+  - intros r args N E. cbn [lstep] in E. destruct (negb _); [discriminate|].
+    rewrite N in E. cbn [emit_with_args] in E. inversion E; subst; clear E.
     cbn [with_out with_slots s_exp s_slots]. split; [reflexivity|].
     assert (L : r < length (s_slots st)) by (apply nth_error_Some; rewrite N; discriminate).
     clear -L. revert r L. induction (s_slots st) as [|x xs IH]; intros [|r] L; cbn in *; try lia; [reflexivity|]. apply IH. lia.
@@ -160,7 +159,7 @@ Lemma emit_with_args_disabled : forall c st l sl args st',
   logger_enabled c l = false -> emit_with_args c st l sl args = Ok st' -> st' = st.
 Proof.
   intros c st l sl args st' EN E. unfold emit_with_args in E. rewrite EN in E.
-  destruct sl; try (destruct (existsb arg_crashes args); [discriminate|]); inversion E; reflexivity.
+  destruct sl; inversion E; reflexivity.
 Qed.
 
 Theorem exports_only_through_enabled_loggers : forall c st o st',
@@ -175,27 +174,27 @@ Proof.
   - destruct (nth_error (s_toks st) k) as [[[tt cx] [|]]|]; try discriminate. inversion E; subst. reflexivity.
   - destruct (_ && _); [|discriminate]. inversion E; subst. reflexivity.
   - destruct (negb (arg_ok (s_mem st) a)); [discriminate|].
-    destruct (nth_error (s_slots st) r) as [[| |ch]|]; try discriminate; destruct (arg_crashes a); try discriminate; inversion E; subst; reflexivity.
+    destruct (nth_error (s_slots st) r) as [[| |ch]|]; try discriminate; inversion E; subst; reflexivity.
   - destruct D as [D|[l0 [D EN]]]; [discriminate|]. inversion D; subst l0.
     destruct (negb _); [discriminate|]. destruct (nth_error (s_slots st) r) as [sl|]; [|discriminate]. rewrite EN in E. cbn [negb] in E.
     inversion E; subst. reflexivity.
   - destruct (_ && _); [|discriminate]. inversion E; subst. reflexivity.
   - destruct D as [D|[l0 [D EN]]]; [discriminate|]. inversion D; subst l0.
     destruct (negb _); [discriminate|]. unfold emit_variadic in E. rewrite EN in E.
-    destruct (emit_with_args c st l RNoop args) as [s1| |] eqn:EW; try discriminate. apply emit_with_args_disabled in EW; [|exact EN].
+    destruct (emit_with_args c st l RNoop args) as [s1|] eqn:EW; try discriminate. apply emit_with_args_disabled in EW; [|exact EN].
     subst s1. inversion E; subst. reflexivity.
   - destruct D as [D|[l0 [D EN]]]; [discriminate|]. inversion D; subst l0.
     destruct (negb _); [discriminate|]. destruct (nth_error (s_slots st) r) as [sl|]; [|discriminate].
-    destruct (emit_with_args c st l sl args) as [s1| |] eqn:EW; try discriminate. apply emit_with_args_disabled in EW; [|exact EN].
+    destruct (emit_with_args c st l sl args) as [s1|] eqn:EW; try discriminate. apply emit_with_args_disabled in EW; [|exact EN].
     subst s1. inversion E; subst. reflexivity.
   - destruct D as [D|[l0 [D EN]]]; [discriminate|]. inversion D; subst l0.
     destruct (log_args form sev id name msg kvs) as [args|]; [|discriminate].
     destruct (negb _); [discriminate|]. unfold emit_variadic in E. rewrite EN in E.
-    destruct (emit_with_args c st l RNoop args) as [s1| |] eqn:EW; try discriminate. apply emit_with_args_disabled in EW; [|exact EN].
+    destruct (emit_with_args c st l RNoop args) as [s1|] eqn:EW; try discriminate. apply emit_with_args_disabled in EW; [|exact EN].
     subst s1. inversion E; subst. reflexivity.
   - destruct D as [D|[l0 [D EN]]]; [discriminate|]. inversion D; subst l0.
     destruct (negb _); [discriminate|]. unfold emit_variadic in E. rewrite EN in E.
-    destruct (emit_with_args c st l RNoop (ASev sev :: args)) as [s1| |] eqn:EW; try discriminate. apply emit_with_args_disabled in EW; [|exact EN].
+    destruct (emit_with_args c st l RNoop (ASev sev :: args)) as [s1|] eqn:EW; try discriminate. apply emit_with_args_disabled in EW; [|exact EN].
     subst s1. inversion E; subst. reflexivity.
   - destruct (nth_error (s_mem st) a) as [old|]; [|discriminate]. destruct (same_shape (s_mem st) old b); [|discriminate]. inversion E; subst. reflexivity.
   - inversion E; subst. reflexivity.
@@ -208,7 +207,7 @@ Theorem disabled_emits_nothing : forall c ops st st',
   lrun c st ops = Ok st' -> s_exp st' = s_exp st.
 Proof.
   induction ops as [|o ops IH]; intros st st' D E; cbn [lrun] in E; [inversion E; reflexivity|].
-  destruct (lstep c st o) as [s1| |] eqn:S; try discriminate.
+  destruct (lstep c st o) as [s1|] eqn:S; try discriminate.
   rewrite (IH s1 st'); [|intros o' l' Hin; apply D; right; assumption | exact E].
   apply (exports_only_through_enabled_loggers c st o s1 S).
   destruct (emits_via o) as [l|] eqn:V; [right|left; reflexivity]. exists l. split; [reflexivity|]. apply (D o l); [left; reflexivity | exact V].
@@ -306,15 +305,26 @@ Proof.
   split; [discriminate|]. split; [intros old E; inversion E; reflexivity|]. vm_compute. discriminate.
 Qed.
 
-(* open finding F29: EventId{id} (no name) - the process dies in the setter trait, also behind Log(sev, int64_t id, ...) *)
+(* F29 (repaired in /repo, be9979e): EventId{id} without a name - also behind Log(sev, int64_t id, ...) - used to kill the
+   process in the setter trait (strlen(nullptr)).  Now: the id with the EMPTY event name, for every argument list. *)
+Theorem event_id_without_name_is_empty_name : forall act h id,
+  r_eid (build act (h ++ [AEid id None])) = id /\ r_ename (build act (h ++ [AEid id None])) = [] /\
+  log_args 3 9%Z id [] (VStr 0 1) [] = Some [ASev 9%Z; AEid id None; ABody BSv (VStr 0 1); AAttrs HKvi []].
+Proof.
+  intros act h id. pose proof (build_eid act (h ++ [AEid id None])) as E. rewrite lastof_snoc in E. cbn [x_eid dflt] in E.
+  split; [exact (f_equal fst E)|]. split; [exact (f_equal snd E) | reflexivity].
+Qed.
+
+(* the former crash witness: Log(severity, int64_t 7, "m", {}) is exported once, with event id 7 and no name *)
 Definition f29_witness : case :=
   mk_case (mk_cfg false [] [(bs "app", [], [], [])] [] (bs "r")) [HB (bs "m")] [PImm]
           [LLog 0 0 false 3 9%Z 7%Z [] (VStr 0 1) []].
-
-Theorem log_fields_as_supplied_refuted_by_F29 :
-  run_case f29_witness = [tag "CRASH"] /\
-  check_case f29_witness (run_case f29_witness) = fail "log_fields_as_supplied:event_id_without_name_crash".
-Proof. split; vm_compute; reflexivity. Qed.
+Example f29_regression :
+  check_case f29_witness (run_case f29_witness) = [] /\
+  firstn 14 (run_case f29_witness) =
+    [tag "A"; tag "none"; tag "N"; TZ 1; tag "|"; tag "P"; tag "I"; TZ 1; tag "R"; TZ 9; tag "s"; TB (bs "m"); TZ 0; tag "now"]%Z /\
+  nth 14 (run_case f29_witness) (tag "?") = TZ 7%Z /\ nth 15 (run_case f29_witness) (tag "?") = TB [].
+Proof. vm_compute. repeat split. Qed.
 
 (* ------------------------------------------------------------------ non-vacuity *)
 Definition ex_case : case :=
@@ -327,7 +337,7 @@ Definition ex_case : case :=
            LEmitV 0 1 [ASev 5%Z]; LClose 0; LEmitV 0 0 []].
 
 Example ex_case_hypotheses :
-  existsb has_nameless (k_ops ex_case) = false /\ forallb (fun o => negb (is_mut o)) (k_ops ex_case) = true /\
+  forallb (fun o => negb (is_mut o)) (k_ops ex_case) = true /\
   check_case ex_case (run_case ex_case) = [] /\ length (run_case ex_case) = 253.
 Proof. vm_compute. repeat split. Qed.
 
